@@ -72,8 +72,18 @@ Fixpoint veq (a b : obj) : bool :=
 Record cshape := {
   cs_in : conv;        (* conversion of the argument of encode and of decode *)
   cs_mid : retk;       (* constructor of the encoded form *)
-  cs_out : retk        (* constructor of the decoded form *)
+  cs_out : retk;       (* constructor of the decoded form *)
+  cs_len : option (nat -> nat)
+                       (* decode's own check after the Go decoder succeeded: the input, CR/LF removed,
+                          must be as long as the encoding of what was decoded (base32, risor 53b0cbd:
+                          encoding/base32 ignores what follows the padding of the last group) *)
 }.
+
+Definition strip_nl (s : bytes) : bytes :=
+  filter (fun c => negb ((c =? 10) || (c =? 13))) s.
+
+(* base32.StdEncoding.EncodedLen *)
+Definition b32_encoded_len (n : nat) : nat := ((n + 4) / 5 * 8)%nat.
 
 Definition content_of (g : gval) : bytes :=
   match g with GStr s | GBytes s => s | _ => [] end.
@@ -95,17 +105,24 @@ Section Codec.
     match convert (cs_in cs) v with
     | Err e => OErr e
     | Ok g => match dec (content_of g) with
-              | inl b => mk_content (cs_out cs) b
+              | inl b =>
+                  match cs_len cs with
+                  | Some f =>
+                      if Nat.eqb (f (length b)) (length (strip_nl (content_of g)))
+                      then mk_content (cs_out cs) b else OErr EValue
+                  | None => mk_content (cs_out cs) b
+                  end
               | inr t => OErr (EGo t)
               end
     end.
 End Codec.
 
-Definition cs_base64 := {| cs_in := CBytes; cs_mid := RString; cs_out := RBytes |}.
-Definition cs_base32 := cs_base64.
+Definition cs_base64 := {| cs_in := CBytes; cs_mid := RString; cs_out := RBytes; cs_len := None |}.
+Definition cs_base32 :=
+  {| cs_in := CBytes; cs_mid := RString; cs_out := RBytes; cs_len := Some b32_encoded_len |}.
 Definition cs_hex := cs_base64.
-Definition cs_gzip := {| cs_in := CBytes; cs_mid := RBytes; cs_out := RBytes |}.
-Definition cs_urlquery := {| cs_in := CString; cs_mid := RString; cs_out := RString |}.
+Definition cs_gzip := {| cs_in := CBytes; cs_mid := RBytes; cs_out := RBytes; cs_len := None |}.
+Definition cs_urlquery := {| cs_in := CString; cs_mid := RString; cs_out := RString; cs_len := None |}.
 
 (* ------------------------------------------------------------------ hex (encoding/hex) *)
 Definition hex_digit (d : N) : N := if d <? 10 then 48 + d else 87 + d.
@@ -276,9 +293,8 @@ Fixpoint to_jv (by_method : bool) (o : obj) : option jv :=
   | _ => None
   end.
 
-(* encodeJSON refuses an object whose Interface() is nil *)
-Definition json_encode (o : obj) : option jv :=
-  match o with ONil => None | _ => to_jv false o end.
+(* encodeJSON: json.Marshal(obj.Interface()); nil is encoded as null (risor 151e447) *)
+Definition json_encode (o : obj) : option jv := to_jv false o.
 Definition json_marshal (o : obj) : option jv := to_jv true o.
 
 (* json.Unmarshal into interface{} followed by object.FromGoType *)
